@@ -19,13 +19,13 @@ ASSUMPTIONS = [
     "a clock step is modelled as the kernel changing 'btime' in /proc/stat (what settimeofday/NTP steps do)",
     "clock steps are chosen so that no two different incarnations of a pid ever get the same epoch start time",
 ]
-REQUIRED_COUNTERS = ["pairs_compared", "is_running_checked"]
+REQUIRED_COUNTERS = ["pairs_compared", "is_running_checked", "fresh_interpreter_histories"]
 PID = 7
 
 
 def alphabet():
     return [("exit", PID), ("reap", PID), ("vanish", PID), ("spawn", PID, False), ("spawn", PID, True),
-            ("new", PID), ("isrun", 0), ("isrun", -1), ("boot",), ("step", 300), ("step", -300), ("iter",),
+            ("new", PID), ("isrun", 0), ("isrun", -1), ("boot",), ("step", 300), ("step", -300), ("iter",), ("iter", "keep"),
             ("q", 0, "create_time"), ("q", -1, "name")]
 
 
@@ -112,7 +112,8 @@ def gen_random(rng):
         elif r < 0.72:
             hist.append(("boot",))
         elif r < 0.77:
-            hist.append(("iter",))
+            hist.append(("iter", "keep") if rng.random() < 0.6 else ("iter",))
+            nh += sum(1 for q in pids if state[q] != "free")
         elif nh == 0:
             continue
         elif r < 0.88:
@@ -135,12 +136,12 @@ def setup():
     return _env
 
 
-def run_history(hist, acc):
+def run_history(hist, acc, prime=True):
     env = setup()
     H = env["H"]
     viols = []
     nontrivial = False
-    w = H.World(env["ps"])
+    w = H.World(env["ps"], prime=prime)
     step_ticks = []
     reuse_ticks = {}
     with w:
@@ -216,11 +217,56 @@ def run_history(hist, acc):
     acc.case(case, nontrivial, viols, sample=dict(case, records=[H.summarize(r) for r in w.records][:25]))
 
 
+def fresh_histories():
+    """Histories whose verdict may depend on what a *fresh* interpreter has (not) cached yet: no boot_time() call and no
+    Process object before the first clock step, etc. Each one runs as the first thing in its own interpreter."""
+    out = []
+    pre = [("spawn", PID, False)]
+    for mid in ([("new", PID), ("step", 3600), ("new", PID)],
+                [("step", 3600), ("new", PID), ("boot",), ("new", PID)],
+                [("new", PID), ("step", -300), ("boot",), ("new", PID), ("isrun", 0)],
+                [("new", PID), ("step", 300), ("new", PID), ("step", 300), ("new", PID), ("boot",), ("new", PID)],
+                [("iter", "keep"), ("step", 7), ("new", PID), ("iter", "keep")],
+                [("new", PID), ("step", 86400), ("iter", "keep"), ("isrun", 0)],
+                [("new", PID), ("q", 0, "create_time"), ("step", 1), ("new", PID), ("q", 1, "create_time")],
+                [("step", 5), ("step", -5), ("new", PID), ("boot",), ("step", 9), ("boot",), ("new", PID)]):
+        out.append(pre + mid + [("cmp",)])
+    return out
+
+
+def run_fresh(shard, acc):
+    import json
+    import os
+    import subprocess
+    import sys
+    import tempfile
+    hs = fresh_histories()
+    rng = harness.rng_for(shard["seed"], "c02fresh")
+    for _ in range(shard.get("nrand", 8)):
+        hs.append(gen_random(rng))
+    for h in hs:
+        out = tempfile.mktemp(prefix="c02fresh_")
+        sh = dict(kind="cases", cases=[dict(hist=[list(o) for o in h])], fresh=True)
+        p = subprocess.run([sys.executable, "-B", "-m", "vlib.worker", "checks.c02", json.dumps(sh), out],
+                           stdout=subprocess.PIPE, stderr=subprocess.STDOUT, text=True, timeout=120)
+        acc.count("fresh_interpreter_histories")
+        if not os.path.exists(out):
+            acc.inconclusive = f"fresh-interpreter run died: {p.stdout[-400:]}"
+            continue
+        with open(out) as f:
+            res = json.load(f)
+        os.unlink(out)
+        for k, v in res.get("counters", {}).items():
+            acc.count(k, v)
+        viols = [(v["mech"] + ":fresh_interpreter", v["detail"]) for v in res.get("violations", [])]
+        acc.case(dict(hist=[list(o) for o in h], fresh=True), bool(res.get("nontrivial")), viols)
+
+
 def plan(tier, seed):
     depth = 4 if tier == "quick" else 5
     nrand = 12000 if tier == "quick" else 500000
     nparts = 16 if tier == "quick" else 48
-    shards = []
+    shards = [dict(kind="fresh", seed=seed, nrand=8 if tier == "quick" else 200)]
     for i in range(nparts):
         shards.append(dict(kind="enum", depth=depth, part=i, parts=nparts))
     for s, c in harness.split_range(nrand, nparts):
@@ -233,6 +279,15 @@ def run_shard(shard):
     setup()
     k = shard["kind"]
     if k == "enum":
+        if shard["part"] == 0:
+            # longer hand-written patterns: a fresh object for the new owner of a pid is cached by process_iter(), a stale
+            # handle of the old owner reports the reuse, the iterator refreshes its entry - the fresh object must stay valid
+            for z in (False, True):
+                for tail in ([("iter",)], [("iter", "keep")], [("iter",), ("iter",)], [("boot",), ("iter",)]):
+                    run_history([("spawn", PID, False), ("new", PID), ("vanish", PID), ("spawn", PID, z), ("iter", "keep"),
+                                 ("isrun", 0)] + tail + [("isrun", 1), ("cmp",)], acc)
+                    run_history([("spawn", PID, False), ("iter", "keep"), ("exit", PID), ("reap", PID), ("spawn", PID, z),
+                                 ("iter", "keep"), ("isrun", 0)] + tail + [("isrun", 1), ("new", PID), ("cmp",)], acc)
         hs = enum_histories(shard["depth"])
         acc.extra["enumerated_histories_depth"] = shard["depth"]
         acc.extra["enumerated_histories_total"] = len(hs)
@@ -243,7 +298,12 @@ def run_shard(shard):
     elif k == "rand":
         for i in range(shard["start"], shard["start"] + shard["count"]):
             run_history(gen_random(harness.rng_for(shard["seed"], "c02", i)), acc)
+    elif k == "fresh":
+        run_fresh(shard, acc)
     elif k == "cases":
+        first = True
         for case in shard["cases"]:
-            run_history([tuple(o) for o in case["hist"]], acc)
+            fresh = bool(shard.get("fresh") or case.get("fresh")) and first
+            run_history([tuple(o) for o in case["hist"]], acc, prime=not fresh)
+            first = False
     return acc.result()
